@@ -129,7 +129,8 @@ def link_projection(chunks):
     """Where the links a reader can follow lead, as the set of distinct (list of the chunk that holds the link, list of
     the chunk the link leads to, leads forward) triples: every entry of every track head table, and item_next of every
     chunk that is REACHABLE: the first source / signal / user-data chunk of the file, the chunks head entries lead to,
-    the SUMMARY behind a reachable INDEX, and whatever item_next leads to from those.  A chunk no list leads to any
+    the SUMMARY behind a reachable INDEX, the chunks the entries of a reachable INDEX lead to (those links are part of
+    the projection too: they lead backward to a chunk of the level below), and whatever item_next leads to from those.  A chunk no list leads to any
     more (a dead chunk left by a repair) may keep a stale item_next.  'nochunk' = no chunk starts at that offset.
     No judgement here (spec/JlsCrash.tla LinksLead)."""
     byoff = {c["off"]: c for c in chunks}
@@ -165,6 +166,24 @@ def link_projection(chunks):
             n = nextphys.get(o)
             if n is not None and tag_info(n["tag"])[0] == "track" and tag_info(n["tag"])[2] == 4:
                 todo.append(n["off"])
+            # the entries of a reachable INDEX: each leads (backward) to a DATA chunk (level 1) / INDEX chunk of the level below
+            pl = c["payload"]
+            lvl, g = c["meta"] >> 12, c["meta"] & 0xfff
+            if c["pcrc_ok"] and len(pl) >= 16 and lvl >= 1 and tt in (0, 2, 3):
+                cnt = struct.unpack("<I", pl[8:12])[0]
+                if tt == 0 and len(pl) >= 16 + 8 * cnt:
+                    ents = struct.unpack("<%dQ" % cnt, pl[16:16 + 8 * cnt])
+                elif tt != 0 and len(pl) >= 16 + 16 * cnt:
+                    ents = [struct.unpack("<q", pl[16 + 16 * i + 8:32 + 16 * i])[0] for i in range(cnt)]
+                else:
+                    ents = []
+                want = "trk:%d:%d" % (0x20 | (tt << 3) | (2 if lvl == 1 else 3), ((lvl - 1) << 12) | g)
+                for e_ in ents:
+                    if e_:
+                        d = byoff.get(e_)
+                        out.add((want, _list_key(d) if d else "nochunk", bool(e_ < o)))
+                        if d:
+                            todo.append(e_)
         if c["next"]:
             d = byoff.get(c["next"])
             out.add((_list_key(c), _list_key(d) if d else "nochunk", bool(c["next"] > c["off"])))
